@@ -148,8 +148,8 @@ def build(case):
                 if d is None or d.get("rc") != 0:
                     out.append({"kind": "dump", "msg": "%s: dump of slot %d failed (%s)" % (what, slot, d and d.get("rc")), "sig": {"kind": "dump_rc"}})
                     continue
-                if d["nvars"] != 1 or d["ndims"] != 1 + fm.get("extra_dims", 0):
-                    out.append({"kind": "isolation", "msg": "%s: slot %d has %s vars / %s dims, expected 1 / %d" % (what, slot, d["nvars"], d["ndims"], 1 + fm.get("extra_dims", 0)), "sig": {"kind": "isolation_meta"}})
+                if d["nvars"] != 1 + fm.get("extra_vars", 0) or d["ndims"] != 1 + fm.get("extra_dims", 0):
+                    out.append({"kind": "isolation", "msg": "%s: slot %d has %s vars / %s dims, expected %d / %d" % (what, slot, d["nvars"], d["ndims"], 1 + fm.get("extra_vars", 0), 1 + fm.get("extra_dims", 0)), "sig": {"kind": "isolation_meta"}})
                     continue
                 if fm["data"] is not None:
                     got = list(struct.unpack("%di" % X, bytes.fromhex(d["vars"][0]["data"])))
@@ -173,10 +173,20 @@ def build(case):
         i = new_id()
         expect_id(n, i)
         f = "f%d" % slot
+        filled = (len(name) + slot + fmt) % 3 == 0
+        if filled:
+            # fill mode: enddef writes fill values, the work is divided among the ranks (a scalar leaves most ranks without a share)
+            p.op("set_fill", step=True, f=f, mode=0)
+            labels.add("create_in_fill_mode")
         p.op("def_dim", step=True, f=f, name=hx("x"), len=X)
         p.op("def_var", step=True, f=f, name=hx("v"), xt=M.NC_INT, dims=[0], ndims=1)
         p.op("enddef", step=True, f=f)
-        files[name] = {"fmt": fmt, "data": None, "att": None, "extra_dims": 0}
+        if filled:
+            # a second define scope that adds only a scalar: at this enddef every rank but one has nothing to fill
+            p.op("redef", step=True, f=f)
+            p.op("def_var", step=True, f=f, name=hx("sc"), xt=M.NC_SHORT, dims=[], ndims=0)
+            p.op("enddef", step=True, f=f)
+        files[name] = {"fmt": fmt, "data": None, "att": None, "extra_dims": 0, "extra_vars": 1 if filled else 0}
         slots[slot] = {"name": name, "ro": False, "id": i, "define": False}
 
     def release(slot):
